@@ -317,3 +317,38 @@ def run(prog: Program, res: Result) -> None:  # noqa: PLR0912, PLR0915
         res.ok("C08.R5", f"{EXT}:{bd.node.lineno} BlockDrop.__getitem__", what, "next less-derived definition")
     else:
         res.fail("C08.R5", file=EXT, line=bd.node.lineno if bd else 0, qualname="BlockDrop.__getitem__", construct="super rendering", message="block.super does not render the next less-derived definition", what=what)
+
+    # ------------------------------------------------------------------ R7 a partial is rendered in a context that names it
+    res.rule("C08.R7", "wherever a loaded template T is rendered through T.render_with_context[_async](C, …) outside ExtendsNode, the context C names T as its current template: C is bound only from context.copy(…, template=T), or the call sits inside `with context.extend(…, template=T)` - ExtendsNode builds the chain of a partial from context.template")
+    n7 = 0
+    for fi in sorted(prog.all_functions(), key=lambda f: (f.file, f.node.lineno)):
+        if fi.cls is None or fi.cls.name == "ExtendsNode" or fi.file == "liquid2/template.py":
+            continue
+        for c in ast.walk(fi.node):
+            if not (isinstance(c, ast.Call) and isinstance(c.func, ast.Attribute) and c.func.attr in ("render_with_context", "render_with_context_async") and c.args):
+                continue
+            tname = norm(c.func.value)
+            carg = c.args[0]
+            n7 += 1
+            site = f"{fi.file}:{c.lineno} {fi.qualname}"
+            what = f"{fi.qualname}: `{tname}` rendered in a context whose current template is `{tname}`"
+            ok_why = None
+            if isinstance(carg, ast.Name):
+                binds = [a.value for a in ast.walk(fi.node) if isinstance(a, ast.Assign) and any(isinstance(t, ast.Name) and t.id == carg.id for t in a.targets)]
+                if binds and all(isinstance(b, ast.Call) and isinstance(b.func, ast.Attribute) and b.func.attr == "copy" and any(k.arg == "template" and norm(k.value) == tname for k in b.keywords) for b in binds):
+                    ok_why = f"`{carg.id}` is bound only from context.copy(…, template={tname}) ({len(binds)} binding(s))"
+                elif not binds:
+                    # the caller's own context: must be inside `with <ctx>.extend(..., template=T)`
+                    for a in fi.module.ancestors(c):
+                        if isinstance(a, (ast.With, ast.AsyncWith)):
+                            for it in a.items:
+                                ce = it.context_expr
+                                if isinstance(ce, ast.Call) and isinstance(ce.func, ast.Attribute) and ce.func.attr == "extend" and norm(ce.func.value) == carg.id and any(k.arg == "template" and norm(k.value) == tname for k in ce.keywords):
+                                    ok_why = f"inside `with {carg.id}.extend(…, template={tname})`"
+                        if a is fi.node:
+                            break
+            if ok_why:
+                res.ok("C08.R7", site, what, ok_why)
+            else:
+                res.fail("C08.R7", file=fi.file, line=c.lineno, qualname=fi.qualname, construct=f"{tname}.{c.func.attr}({norm(carg)}, …) in a context that does not name {tname}", message=f"{fi.qualname} renders `{tname}` in a context whose current template is still the caller's (no template={tname} on the copy/extend that produced `{norm(carg)}`): an `extends` inside the partial builds its chain from the wrong template (TemplateInheritanceError for a valid chain, or the outer chain rendered again)", what=what)
+    res.floor("C08.R7", "render_with_context call sites in tags", n7, 10)
